@@ -96,6 +96,7 @@ type Ctx struct {
 	directStores map[interface{}]bool // cells a loop assigns directly (as opposed to element-wise)
 	callCovered map[string]bool
 	blockCovers map[*ssa.BasicBlock][]*Query
+	assetFile   string // set for data obligations over an embedded file
 	callCovers  []*CallCover
 }
 
@@ -314,6 +315,9 @@ func (c *Ctx) nameObligations() {
 }
 
 func (c *Ctx) posStr(p token.Pos) string {
+	if !p.IsValid() && c.assetFile != "" {
+		return c.assetFile
+	}
 	if !p.IsValid() {
 		return "-"
 	}
